@@ -725,6 +725,7 @@ func catalogueCase(r *core.Run, st stmt, vals []pval, slots []int, rts []string)
 }
 
 func run(r *core.Run) {
+	runSequences(r)
 	runHistories(r) // the cheaper part first
 	var idx int64
 	alpha := alphabet()
@@ -798,6 +799,9 @@ func run(r *core.Run) {
 }
 
 func replay(r *core.Run, w json.RawMessage) {
+	if replaySeq(r, w) {
+		return
+	}
 	var k kase
 	if err := json.Unmarshal(w, &k); err != nil {
 		panic(err)
